@@ -77,8 +77,12 @@ OrdCls3(c) == IF IntText(P(c[1]), P(c[2])) \/ IntText(P(c[2]), P(c[3])) \/ IntTe
 AddBad(c) == LET o == A(0).add[c[1]][c[2]] IN Res(o.ok, o.keys) # Res(TRUE, Concat(P(c[1]), P(c[2])))
 AddStrBad(c) == LET o == A(0).addstr[c[1]][c[2]] IN Res(o.ok, o.keys) # Res(TRUE, Concat(P(c[1]), P(c[2])))
 SubBad(c) == LET o == A(0).sub[c[1]][c[2]] IN Res(o.ok, o.keys) # Sub(P(c[1]), P(c[2]))
+SubStrBad(c) == LET o == A(0).substr[c[1]][c[2]] IN Res(o.ok, o.keys) # Sub(P(c[1]), P(c[2]))
 SubAddBad(c) == LET o == A(0).subadd[c[1]][c[2]] IN Res(o.ok, o.keys) # Res(TRUE, P(c[2]))
 RelBad(c) == A(0).rel[c[1]][c[2]] # PrefixOf(P(c[2]), P(c[1]))
+RelStrBad(c) == A(0).relstr[c[1]][c[2]] # PrefixOf(P(c[2]), P(c[1]))
+\* is_relative_to and '-' agree: p - q is defined exactly when p is relative to q
+RelSubBad(c) == A(0).rel[c[1]][c[2]] # A(0).sub[c[1]][c[2]].ok
 RelAddBad(c) == ~A(0).reladd[c[1]][c[2]]
 ParAddBad(c) == P(c[2]) # <<>> /\ LET o == A(0).paradd[c[1]][c[2]] IN
                                   Res(o.ok, o.keys) # Res(TRUE, Concat(P(c[1]), ParentOf(P(c[2])).keys))
@@ -103,8 +107,11 @@ AlgebraLaws(u) ==
   /\ Report("add", Pairs(0), AddBad, Plain)
   /\ Report("add_str", Pairs(0), AddStrBad, Plain)
   /\ Report("sub", Pairs(0), SubBad, Plain)
+  /\ Report("sub_str", Pairs(0), SubStrBad, Plain)
   /\ Report("sub_of_add", Pairs(0), SubAddBad, Plain)
   /\ Report("is_relative_to", Pairs(0), RelBad, Plain)
+  /\ Report("is_relative_to_str", Pairs(0), RelStrBad, Plain)
+  /\ Report("relative_iff_subtractable", Pairs(0), RelSubBad, Plain)
   /\ Report("add_is_relative", Pairs(0), RelAddBad, Plain)
   /\ Report("parent_of_add", Pairs(0), ParAddBad, Plain)
   /\ Report("parent", 1..N(0), ParentBad, Plain)
